@@ -13,6 +13,10 @@ func init() {
 
 func runC07(w *World) {
 	w.NoStall = true
+	if w.Chance(1, 5, "slow-logger") {
+		// the peer manager is held up inside the user's Logger while it arbitrates
+		w.SlowLogger(300)
+	}
 	localID := "10.0.0.5"
 	L := IPToU32(localID)
 	var R uint32
@@ -58,8 +62,29 @@ func runC07(w *World) {
 		} else {
 			p.Speaker.ID = L - 3
 		}
-		if s.PriorSession(w) {
-			w.Probe("prior-session-under-another-identifier")
+		if w.Draw(2, "prior-kind") == 0 {
+			if s.PriorSession(w) {
+				w.Probe("prior-session-under-another-identifier")
+			}
+		} else if d := p.Site.WaitDial(time.Minute); d != nil {
+			// an earlier COLLISION under the other identifier (resolved the other way
+			// round), after which both connections go away
+			O0 := d.Accept()
+			I0 := e.OpenConn(p, DirIn, time.Minute)
+			if O0 != nil && ExpectOpen(O0, time.Second) != nil && ExpectOpen(I0, time.Second) != nil {
+				w.Quiesce()
+				O0.SendSeg(p.Speaker.OpenFrame())
+				w.Quiesce()
+				I0.SendSeg(p.Speaker.OpenFrame())
+				w.Quiesce()
+				w.Probe("prior-collision-under-another-identifier")
+			}
+			for _, c0 := range []*Conn{O0, I0} {
+				if c0 != nil && !c0.RemoteClosed() {
+					c0.FIN()
+				}
+			}
+			w.Quiesce()
 		}
 		p.Speaker.ID = realID
 		for _, d := range p.Site.DialList() {
